@@ -72,6 +72,10 @@ CLAIMED = {
             'exploration: held on ~150 tool runs per quick run (cartesian/chunk 2D/3D, annulus, sphere; 1-40 cells per direction; several -j; --filtered/--by-tag), ~5x10^4 node comparisons',
             'sphere meshes are checked structurally (shell radii, face sharing, volumes) rather than node by node; binary/compressed VTU formats are not parsed; the highest-tag rule of the filters is taken from the source',
             'DESIGN.md section 4, C18'),
+    'C14': ('runtime monitoring with ThreadSanitizer: multi-threaded stress harness in the monitor process (2-32 threads behind a barrier, shared query pool) with every concurrent answer compared bitwise against the single threaded answer; gwb-grid under TSan/ASan for a range of -j with byte comparison of all VTU files; detector self-test on the known engine race of a random-model world',
+            'exploration: held on ~2x10^5 concurrent calls per quick run (up to 32 simultaneously open calls observed) over 30 worlds and 36 gwb-grid runs; ThreadSanitizer generalises the observed interleavings by happens-before',
+            'only interleavings that happened (plus TSan\'s happens-before closure) are covered; at most 32 threads and -j 40; worlds with random models are excluded by the property',
+            'DESIGN.md section 4, C14'),
 }
 
 PENDING_REASON = 'check not built yet (work in progress; see DESIGN.md section 9)'
